@@ -115,7 +115,10 @@ ruleLoop:
 
 		// Get a replacer so we can provide basic info for the authentication error.
 		repl := httpserver.NewReplacer(r, nil, "-")
-		repl.Set("user", username)
+		if username != "" {
+			// (without a name the placeholder stays unset: the log writes its empty-value marker)
+			repl.Set("user", username)
+		}
 		errstr := repl.Replace("BasicAuth: user \"{user}\" was not found or password was incorrect. {remote} {host} {uri} {proto}")
 		err := fmt.Errorf("%s", errstr)
 		return http.StatusUnauthorized, err
